@@ -30,10 +30,10 @@ ASSUMPTIONS = [
     'a zero-length ISO SDU producing no packet is counted, not judged (the statement speaks of emitted fragments)',
 ]
 MIN_EVENTS = {
-    'quick': {'fragments_checked': 10000, 'pdus_delivered': 1500, 'malformed_injected': 300, 'iso_fragments': 2000,
-              'max_size_pdus': 8},
-    'thorough': {'fragments_checked': 200000, 'pdus_delivered': 12000, 'malformed_injected': 6000,
-                 'iso_fragments': 60000, 'max_size_pdus': 80},
+    'quick': {'fragments_checked': 35000, 'pdus_delivered': 5000, 'malformed_injected': 1200, 'iso_fragments': 20000,
+              'max_size_pdus': 30},
+    'thorough': {'fragments_checked': 250000, 'pdus_delivered': 25000, 'malformed_injected': 9000,
+                 'iso_fragments': 200000, 'max_size_pdus': 150},
 }
 CASE_TIMEOUT = 600
 
@@ -43,12 +43,12 @@ LENS = [27, 28, 31, 64, 251, 1021]
 
 def plan(tier, seed):
     cases = []
-    n = 480 if tier == 'quick' else 4800
+    n = 1600 if tier == 'quick' else 8000
     for i in range(n):
         cases.append({'kind': 'xfer', 'seed': seed * 1000003 + i, 'big': i % 20 == 0, 'tier': tier})
-    for i in range(240 if tier == 'quick' else 3600):
+    for i in range(800 if tier == 'quick' else 6000):
         cases.append({'kind': 'malformed', 'seed': seed * 1000003 + i})
-    for i in range(160 if tier == 'quick' else 1600):
+    for i in range(400 if tier == 'quick' else 3200):
         cases.append({'kind': 'iso', 'seed': seed * 1000003 + i})
     return cases
 
